@@ -8,64 +8,64 @@ HOME = Path(__file__).resolve().parent.parent
 sys.path.insert(0, str(HOME))
 
 META = {
-    "C01": dict(engine="E2-opseq", tech="explicit-state differential exploration of twin runs: every single deviation (fresh twin, n_jobs 2/4 with real loky, verbose, saving folder, sampler-constructor seeds) on a complete lattice of line-ups x schedulers x losses x dims x ensemble, bit-exact state comparison",
+    "C01": dict(engine="E2-opseq", tech="explicit-state differential exploration of twin runs: every single deviation (fresh twin, n_jobs 2/4 with real loky, verbose, saving folder, sampler-constructor seeds) on a complete lattice of line-ups x schedulers x losses x dims x ensemble, bit-exact state comparison; plus an other-process deviation (another hash salt) and two large-scope configurations (600-row surrogate history, likelihood loss on series of 4100 points)",
                 text="Bounded-exhaustive differential model checking on the real Calibrator: for every configuration of a finite lattice the baseline run and every single deviation from it are executed and their canonical histories compared bit for bit. Level is right because the property is a statement over configurations, and the realistic slips (seed drawn in a worker, cursor not reset on reseed, shared streams) have witnesses of <=3 samplers and <=2x line-up length batches.",
                 note="Trusted: numpy Generator determinism, joblib/loky returning results in submission order; completion order of worker processes is not enumerated. Line-ups longer than the bound and dims > 4 are not covered."),
     "C02": dict(engine="E2-opseq", tech="explicit-state search over calibrate(n) call sequences on the real Calibrator with logged sampler/model/loss calls; eight history invariants evaluated after every transition",
                 text="Breadth-first exploration of all sequences of calibrate(1|2) up to a depth bound for a lattice of line-ups x models (incl. huge/inf values) x ensemble x sim_length; after each transition the recorded history is checked against the logs of what samplers proposed, what the model was called with and returned, and what the loss returned, plus append-only snapshots.",
                 note="Trusted: class-level logging patches (BaseSampler.sample, BaseLoss.compute_loss, scheduler methods) are transparent; n_jobs=1 so call order is owned."),
-    "C03": dict(engine="E4-enum", tech="bounded-exhaustive enumeration: search-space lattice x all nine samplers x option settings x history patterns x seeds, three successive sample() calls each; exact grid membership oracle",
+    "C03": dict(engine="E4-enum", tech="bounded-exhaustive enumeration: search-space lattice x all nine samplers x option settings x history patterns x seeds, three successive sample() calls each; exact grid membership oracle; continued on a second space of the same dimension (one sampler object), integer-typed on-grid histories",
                 text="Every sampler is driven through short call sequences on every space of a lattice chosen so that clipping to a bound differs from snapping to the grid; each returned coordinate must be an exact grid element and the batch must have the declared shape.",
                 note="Spaces, options and histories outside the lattice are not covered; degenerate histories (repeated rows, equal losses) are recorded, exceptions there are not judged."),
-    "C04": dict(engine="E2-opseq", tech="explicit-state BFS over {calibrate, create_checkpoint, restore, new run in same folder} on the real Calibrator with canonical-state comparison; exhaustive float lattice through save->load; SQLite back-end on every distinct state",
+    "C04": dict(engine="E2-opseq", tech="explicit-state BFS over {calibrate, create_checkpoint, restore, new run in same folder} on the real Calibrator with canonical-state comparison; exhaustive float lattice through save->load; SQLite back-end on every distinct state; straight-line re-execution of every history in one folder without state de-duplication, a 70-row run, I/O faults injected into the checkpoint written inside calibrate()",
                 text="All operation histories up to a depth bound; after every checkpoint the restored object must canonicalise to the live one (configuration, counters, arrays incl. dtype, generator state, scheduler/sampler/loss state) and remain usable; a ~12k-element float lattice is pushed through the CSV path and compared bitwise.",
                 note="Trusted: the canonicaliser's dropped fields (fitted-model caches, thread handles, absolute paths) do not influence futures. Known findings keyed per cause."),
-    "C05": dict(engine="E2-opseq", tech="explicit-state differential search: all 3^(n-1) cut patterns (same call / second call / checkpoint-restore) of n batches, canonical state after every batch compared with the uninterrupted twin",
+    "C05": dict(engine="E2-opseq", tech="explicit-state differential search: all 3^(n-1) cut patterns (same call / second call / checkpoint-restore) of n batches, canonical state after every batch compared with the uninterrupted twin; retry workflow (restore, run a batch on a throw-away object, restore again); single cuts of 12-batch runs",
                 text="For every configuration of the line-up lattice and every way of cutting n batches, the state after batch k (history and hidden state) must equal the uninterrupted run's; the explored graph must collapse to one state per depth.",
                 note="n bounded (4 quick, 5-6 thorough); line-ups of length <=2 (3 thorough)."),
-    "C06": dict(engine="E3-crash", tech="crash-state enumeration: every prefix and byte cut of the logged write history of a real save on top of five kinds of previous checkpoint, restore judged old|new|error; exception injected at every traced line of both back-ends' save",
+    "C06": dict(engine="E3-crash", tech="crash-state enumeration: every prefix and byte cut of the logged write history of a real save on top of five kinds of previous checkpoint, restore judged old|new|error; exception injected at every traced line of both back-ends' save; previous checkpoints of a few kB, > 2 MB and > 16 MiB; another set-up with the same model name/seed/folder saved on top",
                 text="Exhaustive fault enumeration over the file-operation log of the real save_calibrator_state, and over every statement of the SQLite save; each crash state is restored with the real restore path and classified.",
                 note="Crash model is process death (completed writes persist in order); power-loss reordering and SQLite page atomicity are trusted/not modelled. JSON back-end non-atomicity is a recorded known finding keyed by (file, phase, outcome)."),
-    "C07": dict(engine="E4-enum", tech="bounded-exhaustive enumeration of data over tiny value alphabets x all option vectors, compared with independent reference implementations written from the published definitions",
+    "C07": dict(engine="E4-enum", tech="bounded-exhaustive enumeration of data over tiny value alphabets x all option vectors, compared with independent reference implementations written from the published definitions; likelihood loss on both sides of the 2^24 kernel-entry threshold",
                 text="All real/simulated series over small alphabets (ties, constants, bin-edge hits are the norm), E<=3, D<=2, every option combination of the five built-in losses, against references using tuple words / explicit sums / explicit masks.",
                 note="Reference models are trusted (written from docs, cross-checked); tolerance 1e-9 relative (1e-12 GSL). GSL-div base-10 word packing is a known finding identified by a defect-aware classification."),
-    "C08": dict(engine="E4-enum", tech="bounded-exhaustive relational checking incl. all evaluation sequences of length <=3 on one loss object (explicit-state over evaluation histories)",
+    "C08": dict(engine="E4-enum", tech="bounded-exhaustive relational checking incl. all evaluation sequences of length <=3 on one loss object (explicit-state over evaluation histories); integer-typed weights, aliasing moment calculators, real-data buffer refilled in place",
                 text="Purity, history-independence, weight-linearity, zero-weight, coordinate and ensemble permutation invariance, non-negativity/zero-at-identity and wrong-length rejection are checked on every element of a finite lattice of data, weights, filters and loss classes (built-ins and stub user losses).",
                 note="LikelihoodLoss overrides compute_loss; the weight-linearity clause is not applied to it (documented: weights ignored)."),
-    "C09": dict(engine="E2-opseq+E1", tech="explicit-state search over {calibrate(1), calibrate(2), restore} histories for round-robin line-ups of 1-6 samplers with logged sample() calls; every scripted agent action sequence for RL under all interleavings (sleep-set reduced); constructor argument combinations",
+    "C09": dict(engine="E2-opseq+E1", tech="explicit-state search over {calibrate(1), calibrate(2), restore} histories for round-robin line-ups of 1-6 samplers with logged sample() calls; every scripted agent action sequence for RL under all interleavings (sleep-set reduced); constructor argument combinations; set_samplers with a longer/shorter line-up inside the histories; timed waits explored as timer-lands-first deviations",
                 text="Lifetime batch i must be produced by sampler i mod n with that sampler's batch size over every explored history; under RL the first batch is Halton and every later batch is the agent's chosen index.",
                 note="RL + restore is not reachable (RLScheduler is not picklable: known finding of C04)."),
-    "C10": dict(engine="E1-sched", tech="stateless model checking of the real RLScheduler/env/agent on real threads serialised by a baton: ALL interleavings at queue/thread/shared-attribute points modulo commutation of independent steps (sleep-set partial-order reduction, cross-checked against the unreduced search), unreduced preemption-bounded search, and line-granularity exploration with a preemption bound; sequential reference monitor on every execution; second driver = real Calibrator.calibrate",
+    "C10": dict(engine="E1-sched", tech="stateless model checking of the real RLScheduler/env/agent on real threads serialised by a baton: ALL interleavings at queue/thread/shared-attribute points modulo commutation of independent steps (sleep-set partial-order reduction, cross-checked against the unreduced search), unreduced preemption-bounded search, and line-granularity exploration with a preemption bound; sequential reference monitor on every execution; second driver = real Calibrator.calibrate; waits with a timeout explored as a bounded timer-lands-first deviation; error and keyboard-interrupt faults inside multi-session shapes",
                 text="Every schedule of the calibration thread and the agent thread within the stated bounds is executed on the implementation and checked by a reference monitor (learn exactly once per executed batch with the right reward and action, nothing left in queues, no deadlock, same sampler sequence in every schedule). Tier A has no preemption bound: sleep sets cut only executions equivalent to an explored one.",
                 note="The reduction assumes that between two scheduling points a thread touches only thread-local state or state behind a point; Tier B (every source line of black_it/schedulers a scheduling point, preemption bound 1/2) does not assume it. Within one source line bytecode interleavings are not explored; shapes up to 3 sessions x 3 batches."),
-    "C11": dict(engine="E2-opseq+E1", tech="fault enumeration: a distinguishable exception injected at every invocation index of model, loss and each sampler for both scheduler kinds, with and without saving folder; RL fault positions under the controlled-thread explorer (all interleavings modulo independence); convergence break under RL",
+    "C11": dict(engine="E2-opseq+E1", tech="fault enumeration: a distinguishable exception injected at every invocation index of model, loss and each sampler for both scheduler kinds, with and without saving folder; RL fault positions under the controlled-thread explorer (all interleavings modulo independence); convergence break under RL; scripted losses x convergence precision x a loss failing at every invocation of the first two batches",
                 text="For every fault position the real calibrate() must raise that exception, leave the history equal to the fault-free prefix, leave no thread behind, and accept a further calibrate().",
                 note="n_jobs=1 (fault position must be owned)."),
-    "C12": dict(engine="E4-enum", tech="exhaustive enumeration of all draw scripts over a 4-row universe for every (history, batch size, pass budget) cell, against a reference model of the dedup loop",
+    "C12": dict(engine="E4-enum", tech="exhaustive enumeration of all draw scripts over a 4-row universe for every (history, batch size, pass budget) cell, against a reference model of the dedup loop; one sampler object per cell (state carried between calls shows), a universe with zeros of opposite sign",
                 text="All scripts of maximal length over {two history rows, two fresh rows} are fed to the real BaseSampler.sample through a scripted subclass; requested sizes, untouched positions, result multiset and the give-up-only-after-all-passes clause are compared with the reference.",
                 note="Universe of 4 rows (1 and 2 columns); pass budget 0-2 quick, 0-6 thorough."),
-    "C13": dict(engine="E4-enum", tech="exhaustive index-range enumeration of halton() against exact Fraction radical inverses, all compositions of n<=6 into batch sizes on one sampler object, seeds range",
+    "C13": dict(engine="E4-enum", tech="exhaustive index-range enumeration of halton() against exact Fraction radical inverses, all compositions of n<=6 into batch sizes on one sampler object, seeds range; all ordered pairs of 11 dimensions drawn on one sampler object",
                 text="Every index in [0, 2^16+2^12) for the first 10 (40 thorough) primes, prime generator against a sieve incl. call sequences, sampler-level continuity for every composition of n into batches, R-sequence against high-precision phi_d.",
                 note="Seeds from a range, not all seeds."),
-    "C14": dict(engine="E2-opseq", tech="exhaustive enumeration of loss scripts (through the model) x precisions x verbosity x saving folder x requested batches, followed by a second calibrate; reference stopping rule",
+    "C14": dict(engine="E2-opseq", tech="exhaustive enumeration of loss scripts (through the model) x precisions x verbosity x saving folder x requested batches, followed by a second calibrate; reference stopping rule; histories disturbed by a failing scheduler update() hook and by NaN losses, judged on the recorded losses",
                 text="All scripts of length <=3 (4 thorough) over a 7-value loss alphabet; the real calibrate must stop exactly at the reference batch, for both verbosities, and the checkpoint must hold the returned state.",
                 note="Loss alphabet excludes exact rounding half-way values."),
-    "C15": dict(engine="E4-enum", tech="exhaustive enumeration of list/array shaped specifications over a value lattice for up to 3 parameters plus a scale lattice, against a reference of the documented validation order and grid rule",
+    "C15": dict(engine="E4-enum", tech="exhaustive enumeration of list/array shaped specifications over a value lattice for up to 3 parameters plus a scale lattice, against a reference of the documented validation order and grid rule; the caller's own arrays reused for four constructions",
                 text="Exception class, payload and precedence for every malformed spec; grid length, elements, end-point and space_size for every well-formed one.",
                 note="range/precision capped at 1e5; negative precision and zero-parameter specs recorded, not judged."),
-    "C16": dict(engine="E4-enum", tech="bounded-exhaustive: byte snapshots of history arrays around every sampler call; every prediction vector in {0,1,2}^pool for a stub surrogate; best-batch parent/displacement oracle over option and history lattice",
+    "C16": dict(engine="E4-enum", tech="bounded-exhaustive: byte snapshots of history arrays around every sampler call; every prediction vector in {0,1,2}^pool for a stub surrogate; best-batch parent/displacement oracle over option and history lattice; candidate pools of 1000-20000 (100000) with the best candidate at head/tail/chunk boundaries, histories of 999-2500 (20000) rows",
                 text="No sampler may modify the lent arrays (incl. float32-overflowing losses); a surrogate must fit on exactly the history and return the batch_size best-predicted pool rows; best-batch proposals must descend from one of the batch_size best rows by 1..range-1 steps.",
                 note="Histories and spaces from the C03 lattice."),
     "C17": dict(engine="E4-enum", tech="bounded-exhaustive input enumeration: all subsets of a base grid x scales x offsets, values placed relative to the grid (elements, mid/quarter points, nextafter neighbours, out of range); nearest-element oracle",
                 text="Every value of a lattice placed relative to every grid of a finite family is snapped by the real get_closest/digitize_data; the result must be a grid element at minimal distance, idempotent, element-wise.",
                 note="float64 arithmetic; grids strictly increasing."),
-    "C18": dict(engine="E2-opseq", tech="explicit-state search over {calibrate, set_samplers, set_scheduler, restore} histories with logged sample() calls; id-table invariants and plot helper read-back after every checkpoint",
+    "C18": dict(engine="E2-opseq", tech="explicit-state search over {calibrate, set_samplers, set_scheduler, restore} histories with logged sample() calls; id-table invariants and plot helper read-back after every checkpoint; plot_sampling legends read back for runs of 12 and 6000 rows",
                 text="Ids never change once assigned, every stored label identifies the producing class, and the plotting helper recovers the names from every checkpoint the calibrator wrote.",
                 note="The id table is not persisted: histories whose first-seen order differs from the current line-up are a known finding."),
-    "C19": dict(engine="E4-enum", tech="explicit-state BFS over learn/policy event sequences of the real agent and over best-loss sequences of the real bandit environment against reference update rules",
+    "C19": dict(engine="E4-enum", tech="explicit-state BFS over learn/policy event sequences of the real agent and over best-loss sequences of the real bandit environment against reference update rules; learning rate 0, losses around 1e-13, negative losses",
                 text="All event sequences to depth 4 (6 thorough) for a lattice of action counts, learning rates, epsilons, initial values and seeds; Q/counts equal the reference after every event; rewards equal the relative-improvement rule.",
                 note="Reward with previous best = 0 is undefined by definition and excluded."),
-    "C20": dict(engine="E4-enum", tech="bounded-exhaustive enumeration of lengths x lambdas x shapes against an independently built dense/banded HP system and the filter definitions",
+    "C20": dict(engine="E4-enum", tech="bounded-exhaustive enumeration of lengths x lambdas x shapes against an independently built dense/banded HP system and the filter definitions; float32 and int64 input series",
                 text="Every length 3..64 (3..400 thorough) plus a tail to 2000, five lambdas, seven shapes, three scales: optimality residual, cycle+trend identity, wrapper definitions, finite moment summary.",
                 note="Shapes outside the lattice are not covered; weakest use of the technique in this list."),
 }
